@@ -5,7 +5,7 @@ cd "$(dirname "$0")"
 export GOFLAGS=-mod=mod GOPROXY=off GOSUMDB=off GOTOOLCHAIN=local
 cp /repo/go.sum harness/go.sum
 mkdir -p harness/bin
-for pkg in drv cdrv wiredrv; do
+for pkg in drv cdrv wiredrv scen; do
   if [ -d "harness/$pkg" ]; then (cd harness && go1.26 test -c -tags verif -o bin/$pkg.test ./$pkg); fi
 done
 rm -rf harness/bin
